@@ -702,7 +702,7 @@ var (
 	profC05 = Profile{Name: "C05", Update: 1, Publish: 7, Pull: 7, Ack: 5, Nack: 2, Delay: 1, Advance: 4, Maint: 2, Sweep: 1, Seek: 1, Snap: 1, OrderedOnly: true}
 	profC06 = Profile{Name: "C06", Update: 1, Publish: 5, Pull: 8, Ack: 1, Nack: 4, Delay: 2, Advance: 5, Sweep: 3, Churn: 1}
 	profC13 = Profile{Name: "C13", Publish: 6, Pull: 5, Ack: 5, Nack: 1, Advance: 3, Seek: 4, Snap: 5, Maint: 1}
-	profC14 = Profile{Name: "C14", Update: 1, SetDelay: 3, Publish: 5, Pull: 6, Ack: 1, Advance: 8, Seek: 1, Maint: 4, BigAdvance: true}
+	profC14 = Profile{Name: "C14", Update: 1, SetDelay: 3, Publish: 5, Pull: 6, Ack: 2, Advance: 8, Seek: 1, Snap: 2, Maint: 4, BigAdvance: true}
 	profC15 = Profile{Name: "C15", Publish: 5, Pull: 6, Ack: 4, Nack: 1, Advance: 5, Maint: 8, Sweep: 1, Churn: 2, Seek: 1, Snap: 1, BigAdvance: true}
 )
 
@@ -893,8 +893,27 @@ func TestC13(t *testing.T) {
 func TestC14(t *testing.T) {
 	runCore(t, coreCfg{prop: "C14", profile: profC14, quickSeeds: 40, thoroughSeeds: 1600, nops: 100})
 }
+
+// recreatedStream: a dead row that no job has pruned yet is invisible too — a StreamingPull on a
+// subscription that was deleted and created again under the same name works before the prune as after it
+func recreatedStream(t *testing.T, st *Stats) {
+	for _, grpc := range []bool{true, false} {
+		cs := c11Case{Name: fmt.Sprintf("recreated-subscription-grpc=%v", grpc), Grpc: grpc, Recreate: true, Actions: []c11Action{{K: "fc", Msgs: 3, Byts: 10000}, {K: "publish", Pads: []int{0}}}}
+		r := c11Run(t, Seed(), cs, map[string]bool{"stall-head-of-line": true})
+		st.Count("recreated_stream_cases", 1)
+		if r.sentTotal < 1 {
+			p := ReplayPath(fmt.Sprintf("C15-stream-%s-%d.json", cs.Name, Seed()))
+			what := fmt.Sprintf("subscription s deleted and created again (the deleted row not pruned yet); a StreamingPull on s sent %d of 1 published messages (stream ended with: %q; %s) — with the dead row pruned it works", r.sentTotal, r.streamErr, r.violation)
+			b, _ := json.MarshalIndent(c11Replay{Property: "C15", Sig: "unpruned-row-visible", Seed: Seed(), Case: cs, What: what}, "", " ")
+			os.WriteFile(p, b, 0o644)
+			st.Violate(Violation{What: "[unpruned-row-visible] " + what, Replay: p, FoundInput: true, Sig: "unpruned-row-visible"})
+			return
+		}
+	}
+}
+
 func TestC15(t *testing.T) {
-	runCore(t, coreCfg{prop: "C15", profile: profC15, quickSeeds: 25, thoroughSeeds: 1000, nops: 100, metamorphic: true})
+	runCore(t, coreCfg{extra: recreatedStream, prop: "C15", profile: profC15, quickSeeds: 25, thoroughSeeds: 1000, nops: 100, metamorphic: true})
 }
 
 // TestShrink: developer helper — run one seed of ProfileAll, shrink the first finding, print the replay.
